@@ -16,12 +16,23 @@ class Oracle:
     def reset(self):
         self.log = []
         self.override = None      # object with random()/randrange(n) giving scripted concrete draws
+        self.tape = None          # when a list: every draw is appended (record) ...
+        self.replay = None        # ... when a list: draws are taken from it (same random-generator state for a second run)
 
     # ---- core draws
     def random(self):
+        if self.replay is not None:
+            if not self.replay:
+                raise Unsupported('replayed run drew more random numbers than the recorded one')
+            kind, v = self.replay.pop(0)
+            if kind != 'random':
+                raise Unsupported('replayed run drew a %s where the recorded one drew %s' % ('random', kind))
+            return v
         if self.override is not None:
             v = self.override.random()
             self.log.append(('random*', v))
+            if self.tape is not None:
+                self.tape.append(('random', v))
             return v
         c = Ctx.cur
         if c.mode == 'sym':
@@ -32,16 +43,29 @@ class Oracle:
             v = float(c.fresh_value('rnd', 0.5))
             v = min(max(v, 0.0), 1.0 - 2 ** -53)
         self.log.append(('random', v))
+        if self.tape is not None:
+            self.tape.append(('random', v))
         return v
 
     def _index(self, n, kind='rr'):
         n = int(n)
+        if self.replay is not None:
+            if not self.replay:
+                raise Unsupported('replayed run drew more random numbers than the recorded one')
+            k2, v = self.replay.pop(0)
+            if k2 != 'index':
+                raise Unsupported('replayed run drew an index where the recorded one drew %s' % k2)
+            return v
         if self.override is not None:
             v = self.override.randrange(n)
             self.log.append((kind + '*', v))
+            if self.tape is not None:
+                self.tape.append(('index', v))
             return v
         v = Ctx.cur.choose(n, kind)
         self.log.append((kind, v))
+        if self.tape is not None:
+            self.tape.append(('index', v))
         return v
 
     # ---- random module API
